@@ -274,6 +274,12 @@ and "insert", so offsets increase in log order under every schedule -/
 theorem memory_store_locked : Ebu.Locks.Discipline Ebu.Generated.accessFacts = true :=
   Ebu.Props.C03.facts_discipline
 """),
+ "C01": ("Ebu.Props.C03", """/-- `Subscribe appends`, `Unsubscribe removes exactly the first registration …` describe whole API calls: every
+registry mutator of the CURRENT source looks up and updates `shard.handlers` inside ONE write-locked critical section
+(fact table regenerated on every run), so concurrent callers cannot lose or resurrect each other's registrations -/
+theorem registry_calls_atomic : Ebu.Locks.RegistryOpsAtomic Ebu.Generated.accessFacts = true :=
+  Ebu.Props.C03.facts_registry_ops_atomic
+"""),
  "C02": ("Ebu.Props.C03", """/-- the atomic subscribe / removal steps of M2 are what the CURRENT source does: every registry mutator looks up
 and updates `shard.handlers` inside one write-locked critical section (fact table regenerated on every run) -/
 theorem registry_steps_atomic : Ebu.Locks.RegistryOpsAtomic Ebu.Generated.accessFacts = true :=
